@@ -51,7 +51,7 @@ FloatVecDiv(s) ==
                 s2     == PopN(s1, "int", 1)
                 zero   == \E j \in 1..Len(second) :
                             LET i == SrcPos(j, off, Len(top)) IN i # 0 /\ FIsZero(top[i])
-            IN IF zero THEN Fired(s2)
+            IN IF zero THEN Unfired(s2)            \* the documented guard failed: operands consumed, nothing pushed
                ELSE LET r == EW(second, top, off, LAMBDA a, b : OfFRes(FDiv(a, b)))
                     IN FiredH(PushOn(s2, "fvec", r.v),
                               [k \in 1..Len(r.holes) |-> Hole(<<"fvec", 1, r.holes[k].j>>, r.holes[k].c)])
